@@ -394,3 +394,107 @@ def parse_coq_value(s):
     s = re.sub(r"\btrue\b", "1", s)
     s = re.sub(r"\bfalse\b", "0", s)
     return json.loads(s)
+
+
+# ----------------------------------------------------------------- exact reference polygon (Fractions)
+def _fr(x):
+    from fractions import Fraction
+    return Fraction(float(x))
+
+
+def exact_polygon(t1, t2, plane):
+    """The exact intersection of the plane {n.x = d} (n, d: the binary64 numbers given) with
+    both tetrahedra, computed in rational arithmetic: list of vertices (Fractions), possibly
+    empty, in cyclic order.  Independent oracle for completeness of the reported polygon."""
+    n = [_fr(x) for x in plane[:3]]
+    d = _fr(plane[3])
+    T1 = [[_fr(x) for x in p] for p in t1]
+    T2 = [[_fr(x) for x in p] for p in t2]
+
+    def dot(a, b):
+        return a[0] * b[0] + a[1] * b[1] + a[2] * b[2]
+
+    def sub(a, b):
+        return [a[0] - b[0], a[1] - b[1], a[2] - b[2]]
+
+    def cross(a, b):
+        return [a[1] * b[2] - a[2] * b[1], a[2] * b[0] - a[0] * b[2], a[0] * b[1] - a[1] * b[0]]
+
+    # cross-section of tetrahedron 1
+    s = [dot(n, p) - d for p in T1]
+    pts = []
+    for i in range(4):
+        if s[i] == 0:
+            pts.append(T1[i])
+        for j in range(i + 1, 4):
+            if s[i] * s[j] < 0:
+                t = s[i] / (s[i] - s[j])
+                pts.append([T1[i][k] + (T1[j][k] - T1[i][k]) * t for k in range(3)])
+    uniq = []
+    for p in pts:
+        if p not in uniq:
+            uniq.append(p)
+    if len(uniq) < 3:
+        return []
+    # order counter-clockwise about n: sort around the first point by exact orientation
+    c = [sum(p[k] for p in uniq) / len(uniq) for k in range(3)]
+
+    def half(p):
+        # pseudo-angle bucket relative to the first direction
+        v = sub(p, c)
+        r = sub(uniq[0], c)
+        cr = dot(n, cross(r, v))
+        dt = dot(r, v)
+        return (0 if (cr > 0 or (cr == 0 and dt > 0)) else 1, v)
+
+    import functools
+
+    def cmp(p, q):
+        hp_, vp = half(p)
+        hq, vq = half(q)
+        if hp_ != hq:
+            return -1 if hp_ < hq else 1
+        cr = dot(n, cross(vp, vq))
+        return -1 if cr > 0 else (1 if cr < 0 else 0)
+    poly = [uniq[0]] + sorted(uniq[1:], key=functools.cmp_to_key(cmp))
+    # clip by the four faces of tetrahedron 2
+    for f in range(4):
+        a, b, cc = [T2[k] for k in range(4) if k != f]
+        nf = cross(sub(b, a), sub(cc, a))
+        if dot(nf, sub(T2[f], a)) < 0:
+            nf = [-x for x in nf]
+        out = []
+        m = len(poly)
+        for i in range(m):
+            p, q = poly[i], poly[(i + 1) % m]
+            sp, sq = dot(nf, sub(p, a)), dot(nf, sub(q, a))
+            if sp >= 0:
+                out.append(p)
+            if (sp > 0 and sq < 0) or (sp < 0 and sq > 0):
+                t = sp / (sp - sq)
+                out.append([p[k] + (q[k] - p[k]) * t for k in range(3)])
+        poly = out
+        if len(poly) < 3:
+            return []
+    res = []
+    for p in poly:
+        if p not in res:
+            res.append(p)
+    return res if len(res) >= 3 else []
+
+
+def exact_area(poly, plane):
+    """area of a planar polygon given by Fractions (0 for fewer than 3 vertices)"""
+    if len(poly) < 3:
+        return 0.0
+    n = [_fr(x) for x in plane[:3]]
+    A = [0, 0, 0]
+    p0 = poly[0]
+    for i in range(1, len(poly) - 1):
+        u = [poly[i][k] - p0[k] for k in range(3)]
+        v = [poly[i + 1][k] - p0[k] for k in range(3)]
+        A[0] += u[1] * v[2] - u[2] * v[1]
+        A[1] += u[2] * v[0] - u[0] * v[2]
+        A[2] += u[0] * v[1] - u[1] * v[0]
+    nn = math.sqrt(float(n[0] * n[0] + n[1] * n[1] + n[2] * n[2]))
+    return abs(float(A[0] * n[0] + A[1] * n[1] + A[2] * n[2])) / (2.0 * nn)
